@@ -232,15 +232,45 @@ def x_vcheck_deriv(m, f, df, var, tag, k, fd_estimate):
     wrt = {'r_0_0': Fraction(1)} if v == 'r' else {'theta_0_0': Fraction(1), 's_0_0': c_, 'c_0_0': mk('neg', s_)}
     from .terms import diff
     D = diff(f, wrt)
-    # Pythagorean identity for every sin/cos application that occurs
-    for t in reachable([x for x in (D, df) if isinstance(x, Term)]):
+    _trig_axioms(m, (D, df))
+    _ob(m, 'eq', df, D, tag, k)
+
+
+def _theta_multiple(arg):
+    """k if arg is k * theta_0_0 for an integer 1 <= k <= 4, else None"""
+    if isinstance(arg, Term) and arg.op == 'sym' and arg.args[0] == 'theta_0_0':
+        return 1
+    if isinstance(arg, Term) and arg.op == 'mul' and len(arg.args) == 2:
+        x, y = arg.args
+        if isinstance(y, Term) and not isinstance(x, Term):
+            x, y = y, x
+        if isinstance(x, Term) and x.op == 'sym' and x.args[0] == 'theta_0_0' and not isinstance(y, Term):
+            f = Fraction(y)
+            if f.denominator == 1 and 1 <= f.numerator <= 4:
+                return int(f.numerator)
+    return None
+
+
+def _trig_axioms(m, roots):
+    """sin^2 + cos^2 = 1 for every sin/cos application that occurs; multiple-angle formulas tie sin(k theta), cos(k theta)
+    (k <= 4: the shipped source terms were simplified by a CAS to double angles) to the symbols s = sin(theta), c = cos(theta)"""
+    s_, c_ = sym('s_0_0', 'R'), sym('c_0_0', 'R')
+    for t in reachable([x for x in roots if isinstance(x, Term)]):
         if t.op == 'uf' and t.args[0] in ('sin', 'cos'):
             key = ('trig', t.args[1].id if isinstance(t.args[1], Term) else t.args[1])
-            if key not in m.known_sqrt:
-                m.known_sqrt.add(key)
-                sa, ca = Term('uf', ('sin', t.args[1])), Term('uf', ('cos', t.args[1]))
-                m.assume(mk_cmp('eq', mk('add', mk('mul', sa, sa), mk('mul', ca, ca)), Fraction(1)))
-    _ob(m, 'eq', df, D, tag, k)
+            if key in m.known_sqrt:
+                continue
+            m.known_sqrt.add(key)
+            sa, ca = Term('uf', ('sin', t.args[1])), Term('uf', ('cos', t.args[1]))
+            m.assume(mk_cmp('eq', mk('add', mk('mul', sa, sa), mk('mul', ca, ca)), Fraction(1)))
+            k = _theta_multiple(t.args[1])
+            if k is not None:
+                # (c + i s)^k by repeated multiplication
+                re, im = c_, s_
+                for _ in range(k - 1):
+                    re, im = mk('sub', mk('mul', re, c_), mk('mul', im, s_)), mk('add', mk('mul', re, s_), mk('mul', im, c_))
+                m.assume(mk_cmp('eq', ca, re))
+                m.assume(mk_cmp('eq', sa, im))
 
 
 def _wrt(m, v):
@@ -261,13 +291,7 @@ def x_vcheck_eq_fd(m, a, b, tag, k, fd):
     if m.mode == 'float':
         _ob(m, 'eq', b, fd, tag, k)
         return
-    for t in reachable([x for x in (a, b) if isinstance(x, Term)]):
-        if t.op == 'uf' and t.args[0] in ('sin', 'cos'):
-            key = ('trig', t.args[1].id if isinstance(t.args[1], Term) else t.args[1])
-            if key not in m.known_sqrt:
-                m.known_sqrt.add(key)
-                sa, ca = Term('uf', ('sin', t.args[1])), Term('uf', ('cos', t.args[1]))
-                m.assume(mk_cmp('eq', mk('add', mk('mul', sa, sa), mk('mul', ca, ca)), Fraction(1)))
+    _trig_axioms(m, (a, b))
     _ob(m, 'eq', a, b, tag, k)
 
 
